@@ -45,6 +45,10 @@ pub struct C04Case {
     pub pause_sel: u16,
     pub tz_group: u8,
     pub tz_dedupe: u8,
+    /// aim the edits at files that the recording run of `group` reported (members of groups)
+    /// instead of at arbitrary files of the tree
+    #[serde(default)]
+    pub prefer_grouped: bool,
 }
 
 const TZS: [&str; 6] = ["UTC", "JST-9", "PST8", "XXX-5:30", "NST3:30", "AEST-10AEDT,M10.1.0,M4.1.0/3"];
@@ -77,8 +81,8 @@ fn case_strategy() -> BoxedStrategy<C04Case> {
         1 => Just(EditKind::Touch),
     ];
     let edit = (kind, 0u16..u16::MAX, prop::bool::weighted(0.6)).prop_map(|(kind, target, during_group)| Edit { kind, target, during_group });
-    (dcase_strategy(profile()), proptest::collection::vec(edit, 1..4), 0u16..u16::MAX, 0u8..6, 0u8..6)
-        .prop_map(|(mut d, edits, pause_sel, tz_group, tz_dedupe)| {
+    (dcase_strategy(profile()), proptest::collection::vec(edit, 1..4), 0u16..u16::MAX, 0u8..6, 0u8..6, prop::bool::weighted(0.75))
+        .prop_map(|(mut d, edits, pause_sel, tz_group, tz_dedupe, prefer_grouped)| {
             for p in d.dopts.priority.iter_mut() {
                 if *p % 12 == 6 || *p % 12 == 7 {
                     *p = 0;
@@ -87,7 +91,7 @@ fn case_strategy() -> BoxedStrategy<C04Case> {
             if d.move_target == 1 {
                 d.move_target = 0;
             }
-            C04Case { d, edits, pause_sel, tz_group, tz_dedupe }
+            C04Case { d, edits, pause_sel, tz_group, tz_dedupe, prefer_grouped }
         })
         .boxed()
 }
@@ -314,13 +318,22 @@ fn judge(c: &C04Case, cd: &CaseDir, files: &[PathBuf], target: &PathBuf) -> Verd
     }
     let log = std::fs::read_to_string(cd.base.join("shim.log")).unwrap_or_default();
     let opens = log.lines().filter(|l| l.split(' ').nth(3) == Some("open") && l.split(' ').nth(2) == Some("R")).count();
-    let k = pick(c.pause_sel, opens + 1) + 1;
+    // edit targets: members of the groups the recording run reported, when asked for and available
+    let grouped_files: Vec<PathBuf> = if c.prefer_grouped {
+        let members: std::collections::BTreeSet<Vec<u8>> = parse_text(&rec.stdout).map(|r| r.groups.iter().flat_map(|g| g.files.iter().cloned()).collect()).unwrap_or_default();
+        files.iter().filter(|f| members.contains(&path_bytes(f))).cloned().collect()
+    } else {
+        vec![]
+    };
+    let edit_files: &[PathBuf] = if grouped_files.len() >= 2 { &grouped_files } else { files };
+    // half of the new-style cases pause in the last third of the opens (files already hashed, report not yet written)
+    let k = if c.prefer_grouped && c.pause_sel & 1 == 1 { opens + 1 - pick(c.pause_sel, opens / 3 + 1) } else { pick(c.pause_sel, opens + 1) + 1 };
     let mut applied: Vec<String> = vec![];
     let mut same_len_during = false;
     let mut at_pause = || {
         for (i, e) in c.edits.iter().enumerate() {
             if e.during_group {
-                if let Some(s) = apply_edit(e, i, files) {
+                if let Some(s) = apply_edit(e, i, edit_files) {
                     if e.kind == EditKind::RewriteSameLen || e.kind == EditKind::DeleteRecreate {
                         same_len_during = true;
                     }
@@ -342,7 +355,7 @@ fn judge(c: &C04Case, cd: &CaseDir, files: &[PathBuf], target: &PathBuf) -> Verd
     std::thread::sleep(Duration::from_millis(30));
     for (i, e) in c.edits.iter().enumerate() {
         if !e.during_group || !paused {
-            if let Some(s) = apply_edit(e, i, files) {
+            if let Some(s) = apply_edit(e, i, edit_files) {
                 applied.push(format!("[after group] {}", s));
             }
         }
@@ -398,7 +411,7 @@ fn judge(c: &C04Case, cd: &CaseDir, files: &[PathBuf], target: &PathBuf) -> Verd
     }
     let in_report = |p: &PathBuf| report.as_ref().map(|r| r.groups.iter().any(|g| g.files.contains(&path_bytes(p)))).unwrap_or(false);
     let nontrivial = paused
-        && c.edits.iter().any(|e| e.during_group && e.kind == EditKind::RewriteSameLen && !files.is_empty() && in_report(&files[pick(e.target, files.len())]));
+        && c.edits.iter().any(|e| e.during_group && e.kind == EditKind::RewriteSameLen && !edit_files.is_empty() && in_report(&edit_files[pick(e.target, edit_files.len())]));
     let mut classes = sig.clone();
     classes.push(format!("tz-{}-{}", c.tz_group % 6, c.tz_dedupe % 6));
     for e in &c.edits {
@@ -421,7 +434,7 @@ pub fn check(tier: Tier) -> i32 {
     cleanup_process_scratch();
     ctx.finish(
         "exploration",
-        "proptest-generated histories: a scenario tree (5-12 files, several groups, hard links) ; `group --threads 1` paused by the LD_PRELOAD interposer at its k-th open-for-read of a tree file (k drawn from 1..K+1 where K comes from a recording run; covers 'before the first read of a file', 'between its prefix and content reads', 'after all hashing but before the report is written') ; 1-3 edits (rewrite same length, rewrite other length, append, truncate, delete, delete+recreate, replace by directory, replace by symlink, touch) applied by ordinary writes either during the pause or after `group` exited ; one of remove/link/link --soft/move/dedupe with priorities, -n, isolate ; group and dedupe run under independently drawn time zones (UTC, +9, -8, +5:30, -3:30, DST rule). Oracle (inventories just before and after the dedupe run): every content that existed just before the dedupe run is still stored in a regular file, and every processed file's current content is retained in an untouched file (or under the move target). Non-trivial = a same-length rewrite of a reported group member applied while `group` was paused.",
+        "proptest-generated histories: a scenario tree (5-12 files, several groups, hard links) ; `group --threads 1` paused by the LD_PRELOAD interposer at its k-th open-for-read of a tree file (k drawn from 1..K+1 where K comes from a recording run; covers 'before the first read of a file', 'between its prefix and content reads', 'after all hashing but before the report is written') ; 1-3 edits (rewrite same length, rewrite other length, append, truncate, delete, delete+recreate, replace by directory, replace by symlink, touch) applied by ordinary writes either during the pause or after `group` exited, aimed - in three quarters of the cases - at members of the groups a recording run reported, with the pause point biased towards the last third of the opens ; one of remove/link/link --soft/move/dedupe with priorities, -n, isolate ; group and dedupe run under independently drawn time zones (UTC, +9, -8, +5:30, -3:30, DST rule). Oracle (inventories just before and after the dedupe run): every content that existed just before the dedupe run is still stored in a regular file, and every processed file's current content is retained in an untouched file (or under the move target). Non-trivial = a same-length rewrite of a reported group member applied while `group` was paused.",
         &["edits are kept >= 30 ms away from the instants fclones reads the clock (kernel mtimes are tick-granular)", "mtime-preserving replacement is outside the guarantee and not generated", "the pause granularity is a libc call, not an instruction"],
     )
 }
